@@ -82,13 +82,12 @@ def check_case(run, case):
                               case, observed={'missing': miss, 'extra': extra, 'n_lines': len(lines)}, expected={'n': len(exp)}, mech=classify(info))
                 if classify(info) is None:
                     state['stop'] = True
-            if nontriv:
-                run.nontrivial(h(nontriv))
+            run.case(h(nontriv) if nontriv else None)
             if len(run.samples) < run.MAX_SAMPLES and nontriv and len(lines) <= 12:
                 run.sample({'pt': [list(labs), list(idx)], 'lines': lines, 'returned': n})
         pcfg, mon = gstream.run_queue(path, flags, expand=expand)
         run.ev('POP', len(mon.pops))
-        run.case()
+        run.ev('rulesets')
     finally:
         repo.drop_rules(name)
 
